@@ -408,7 +408,35 @@ def mark_loops(body, marks, what=''):
             raise ExtractionError('%s: loop#%d not present' % (what, k))
         sp = spans[k]
         if sp['kind'] == 'do':
-            raise ExtractionError('%s: do-while loops are not supported by the loop-rule instrumentation' % what)
+            # do BODY while (C);  ==>  { int dw_ = 1; while (LOOPHEAD && (dw_ || (C))) { dw_ = 0; BODY } }
+            # (equivalent also for `continue`, which jumps to the condition in both forms).  After the loop-rule havoc the
+            # 'first iteration' flag is unconstrained (dw_ && nondet), so both the body and the exit are explored from any INV state.
+            btxt = body[sp['body'][0]:sp['body'][1]]
+            ctxt = body[sp['cond'][0]:sp['cond'][1]]
+            roots, decls, calls, through = loop_frame(btxt + ' ; ' + ctxt + ';')
+            frame = set(mk.get('frame', []))
+            eff = mk.get('effects', {})
+            pure = set(mk.get('pure', []))
+            ptr_targets = mk.get('ptr_targets', {})
+            for r_ in sorted(through & decls):
+                if r_ not in ptr_targets:
+                    raise ExtractionError('%s: loop#%d writes through local pointer %s' % (what, k, r_))
+                roots |= set(ptr_targets[r_])
+            for c in calls:
+                if c in eff:
+                    roots |= set(eff[c])
+                elif c not in pure:
+                    raise ExtractionError('%s: loop#%d calls %s(), whose effects the spec does not declare' % (what, k, c))
+            extra = roots - decls - frame
+            if extra:
+                raise ExtractionError('%s: loop#%d assigns %s, not in the declared frame %s' % (what, k, sorted(extra), sorted(frame)))
+            semi = find_code_char(body, ';', sp['cond'][1])
+            inner = btxt.strip()
+            assert inner.startswith('{') and inner.endswith('}')
+            new_txt = ('{ int dw_%d = 1; while ( LOOPHEAD_%s && ((dw_%d = (dw_%d && nondet_bool())), 1) && (dw_%d || (%s)) ) { dw_%d = 0; %s } }'
+                       % (k, mk['name'], k, k, k, ctxt.strip(), k, inner[1:-1]))
+            edits.append((sp['kw'], semi + 1, new_txt))
+            continue
         btxt = body[sp['body'][0]:sp['body'][1]]
         ctxt = body[sp['cond'][0]:sp['cond'][1]]
         hdr = body[sp['kw']:sp['body'][0]]
